@@ -162,7 +162,7 @@ func (p *puppetServer) wait(h *HandlerRec) {
 	switch h.Plan.Reply {
 	case "hang":
 		p.w.probe("handler-hang")
-		simrt.Gate("h:hang", func() bool { return p.w.settling })
+		simrt.Gate("h:hang", func() bool { return p.w.settlingA.Load() })
 	default:
 		if h.Plan.Late {
 			simrt.Yield("h:return")
@@ -221,7 +221,7 @@ func (p *puppetServer) stream(ctx gorums.ServerCtx, method, val string, send fun
 		p.markReturn(h)
 		return status.Error(codes.Code(h.Plan.Code), h.Plan.Msg)
 	case "hang":
-		simrt.Gate("h:hang", func() bool { return p.w.settling })
+		simrt.Gate("h:hang", func() bool { return p.w.settlingA.Load() })
 	}
 	p.markReturn(h)
 	return nil
